@@ -182,35 +182,30 @@ class _GridUFuncSignature:
         Whether or not two signatures are equivalent.
 
         Axes names in signatures are dummy variables, so an exact string match is not required.
-        Our comparison strategy is to instead work through both signatures left to right, replacing all occurrences
-        of each dummy index with names drawn from a common list. If after this process the replaced names are not
+        Our comparison strategy is to instead work through both signatures left to right, replacing each dummy
+        index by the order of its first appearance. If after this process the replaced names are not
         identical, the signatures must not be equivalent. Axes positions do have to match exactly.
         """
 
-        def set_unique_inds(sig_part):
-            return set([i for arg in sig_part for i in arg])
+        def renamed_in_order_of_appearance(sig):
+            # dummy names are replaced by the index of their first appearance (inputs, then outputs)
+            numbering: Dict[str, int] = {}
+            return [
+                [tuple(numbering.setdefault(ax, len(numbering)) for ax in arg) for arg in part]
+                for part in (sig.in_ax_names, sig.out_ax_names)
+            ]
 
-        all_unique_sig1_indices = set_unique_inds(self.in_ax_names) | set_unique_inds(
-            self.out_ax_names
+        def positions(sig):
+            return [
+                [tuple(arg) for arg in part]
+                for part in (sig.in_ax_positions, sig.out_ax_positions)
+            ]
+
+        return renamed_in_order_of_appearance(
+            self
+        ) == renamed_in_order_of_appearance(other) and positions(self) == positions(
+            other
         )
-        all_unique_sig2_indices = set_unique_inds(other.in_ax_names) | set_unique_inds(
-            other.out_ax_names
-        )
-
-        if len(all_unique_sig1_indices) != len(all_unique_sig2_indices):
-            return False
-
-        sig1_replaced = str(self)
-        sig2_replaced = str(other)
-        for dummy1, dummy2, common_replacement in zip(
-            all_unique_sig1_indices,
-            all_unique_sig2_indices,
-            self._REPLACEMENT_DUMMY_INDEX_NAMES,
-        ):
-            sig1_replaced = sig1_replaced.replace(dummy1, common_replacement)
-            sig2_replaced = sig2_replaced.replace(dummy2, common_replacement)
-
-        return sig1_replaced == sig2_replaced
 
 
 def _parse_signature_from_string(
